@@ -258,6 +258,8 @@ def _long(rng, tier):
             # the extracted model recurses over the encoded byte list (Coq's app/length are not tail
             # recursive in OCaml): keep encodings below ~300 KB so the default 8 MB stack suffices
             w = rng.randint(1, 8) if n < 40000 else rng.randint(1, 4)
+            if n >= 40000:
+                cnt = min(cnt, n // 200)   # fewer outliers than 1%: the percentile stays regular
             mn = rng.choice(MINS)
             vs, hi = _regular(rng, n, mn, w, rng.choice(["rand", "marker"]))
             yield _case(thr, _with_outliers(rng, vs, hi, mn, cnt, where, mag))
